@@ -14,7 +14,7 @@ META = {
     'functions': ['xrspatial.proximity.proximity', 'xrspatial.proximity.allocation', 'xrspatial.proximity.direction', 'xrspatial.proximity._process',
                   'xrspatial.proximity._process_proximity_line', 'xrspatial.proximity._calc_direction', 'xrspatial.proximity._distance'],
     'bounds': {'quick': 'rasters 3x3 (every one of the 2^9 target layouts, as solver-decided paths over symbolic cell values incl. NaN) for EUCLIDEAN (ascending and descending, '
-                        'non-square coordinates) and MANHATTAN, finite and infinite max_distance; 2x3 for GREAT_CIRCLE and for explicit symbolic target_values',
+                        'non-square coordinates) and MANHATTAN, finite and infinite max_distance; 2x3 for GREAT_CIRCLE and for explicit symbolic target_values; int32 / uint8 rasters 2x3',
                'thorough': 'plus 3x4 and 2x5 (4096 / 1024 layouts) and 4x4 single-target layouts'},
     'stubs': ['numba.jit = identity; the closure _process_numpy is re-created per call exactly as in production'],
     'outside': ['grids larger than the bound (where the 4-sweep heuristic is known to be inexact; there only "never underestimated, names a real target" is the property)',
